@@ -45,11 +45,13 @@ pub struct Gen<'a, 'b> {
     pub n_points: usize,
     pub n_bad: usize,
     pub n_empty: usize,
+    /// deques whose ring buffer is wrapped (non-contiguous) when handed to the serializer
+    pub n_wrapped: usize,
 }
 
 impl<'a, 'b> Gen<'a, 'b> {
     pub fn new(t: &'a mut Tape<'b>, budget: usize) -> Self {
-        Gen { t, prng: None, budget, depth: 0, max_depth: 0, max_len: 0, allow_large: false, large_used: false, bad_points: 0, n_points: 0, n_bad: 0, n_empty: 0 }
+        Gen { t, prng: None, budget, depth: 0, max_depth: 0, max_len: 0, allow_large: false, large_used: false, bad_points: 0, n_points: 0, n_bad: 0, n_empty: 0, n_wrapped: 0 }
     }
     pub fn u64(&mut self) -> u64 {
         match self.prng.as_mut() {
@@ -535,8 +537,53 @@ macro_rules! hv_seq {
     };
 }
 hv_seq!(Vec, push);
-hv_seq!(VecDeque, push_back);
 hv_seq!(LinkedList, push_back);
+
+// A VecDeque is a ring buffer: the same logical sequence can be stored contiguously or wrapped around the end of
+// the allocation, depending on the *history* of operations. The generated deques are therefore built through a
+// history (pre-sized buffer, push_front / push_back, optional pop + re-push and rotation), so that both layouts occur.
+impl<T: Hv> Hv for VecDeque<T> {
+    const MIN: usize = 8;
+    const SAFE: bool = T::SAFE && T::MIN > 0;
+    const CANON: bool = T::CANON;
+    const POINTS: bool = T::POINTS;
+    fn gen(g: &mut Gen<'_, '_>) -> Self {
+        let (n, tok) = g.begin(T::CHEAP);
+        let style = g.below(4);
+        let mut out = if style == 0 { VecDeque::new() } else { VecDeque::with_capacity(n.max(1)) };
+        for _ in 0..n {
+            let x = T::gen(g);
+            if style >= 2 && g.bool() {
+                out.push_front(x);
+            } else {
+                out.push_back(x);
+            }
+        }
+        if style == 3 && n > 0 {
+            // FIFO use at full capacity: move the head forward
+            let k = 1 + g.idx(n);
+            for _ in 0..k {
+                if let Some(x) = out.pop_front() {
+                    out.push_back(x);
+                }
+            }
+        }
+        if !out.as_slices().1.is_empty() {
+            g.n_wrapped += 1;
+        }
+        g.end(n, tok);
+        out
+    }
+    fn enc(&self, c: Compress, e: &mut Enc) {
+        e.len(self.len());
+        for x in self.iter() {
+            x.enc(c, e);
+        }
+    }
+    fn ok(&self) -> bool {
+        self.iter().all(|x| x.ok())
+    }
+}
 
 impl<T: Hv + Ord> Hv for BTreeSet<T> {
     const MIN: usize = 8;
